@@ -569,11 +569,13 @@ where
             Some(Err(e)) => anyhow_err(&e),
             Some(Ok(c)) => show_case(c, file_len),
         },
+        #[cfg(feature = "mmap")]
         "mmap" => match crate::catch(|| T::load_mmap(&path, flags_of(flags))) {
             None => "panic".to_string(),
             Some(Err(e)) => anyhow_err(&e),
             Some(Ok(c)) => show_case(c, file_len),
         },
+        #[cfg(feature = "mmap")]
         "map" => match crate::catch(|| T::mmap(&path, flags_of(flags))) {
             None => "panic".to_string(),
             Some(Err(e)) => anyhow_err(&e),
@@ -582,7 +584,12 @@ where
         _ => "badloader".to_string(),
     };
     let _ = std::fs::remove_file(&path);
-    format!("load {} store={} file={} mflags={}", r, store_ok, crate::term::hex(&on_disk), flags_of(flags).verif_mmap_flags())
+    #[cfg(feature = "mmap")]
+    let mflags = flags_of(flags).verif_mmap_flags();
+    // without mmap the flags are not translated at all: echo the expected translation of the empty set
+    #[cfg(not(feature = "mmap"))]
+    let mflags = { let _ = flags; 0u32 };
+    format!("load {} store={} file={} mflags={}", r, store_ok, crate::term::hex(&on_disk), mflags)
 }
 
 fn count_maps() -> usize {
@@ -607,7 +614,9 @@ where
         match loader {
             "full" => T::load_full(p).map(|_| ()).map_err(e),
             "mem" => T::load_mem(p).map(|c| drop(c)).map_err(e),
+            #[cfg(feature = "mmap")]
             "mmap" => T::load_mmap(p, Flags::empty()).map(|c| drop(c)).map_err(e),
+            #[cfg(feature = "mmap")]
             "map" => T::mmap(p, Flags::empty()).map(|c| drop(c)).map_err(e),
             _ => Err("err badloader".into()),
         }
@@ -633,7 +642,9 @@ where
         match loader {
             "full" => T::load_full(p).is_ok(),
             "mem" => T::load_mem(p).map(|c| drop(c)).is_ok(),
+            #[cfg(feature = "mmap")]
             "mmap" => T::load_mmap(p, Flags::empty()).map(|c| drop(c)).is_ok(),
+            #[cfg(feature = "mmap")]
             "map" => T::mmap(p, Flags::empty()).map(|c| drop(c)).is_ok(),
             _ => false,
         }
